@@ -266,6 +266,18 @@ pub fn run(cfg: &Config, s: &mut Session, rng: &mut Rng) {
             firsts: (10..28).collect(),
             sets: [(1u16, 5000u16), (2, 11370)].into_iter().chain((0..14).map(|_| (1, 5000))).chain([(3, 11370), (4, 4900)]).collect(),
         },
+        // the same, but the under-estimated piece holds the shared pair set + many medium ones and ends with
+        // a small one: no large object can be placed last
+        Scenario {
+            name: "fixed:shared-pair-set-at-split-point/mediums",
+            firsts: (10..39).collect(),
+            sets: [(1u16, 5000u16), (2, 11370)].into_iter().chain((0..14).map(|_| (1, 5000))).chain((0..12).map(|j| (10 + j, 1250))).chain([(40, 100)]).collect(),
+        },
+        Scenario {
+            name: "fixed:shared-pair-set-at-split-point/small-shared",
+            firsts: (10..40).collect(),
+            sets: [(1u16, 1500u16), (2, 14870)].into_iter().chain((0..14).map(|_| (1, 1500))).chain((0..13).map(|j| (10 + j, 1240))).chain([(40, 100)]).collect(),
+        },
         Scenario { name: "fixed:sparse", firsts: (0..400).map(|i| 3 * i + 1).collect(), sets: (0..400).map(|i| (i + 1, 60)).collect() },
     ];
     for sc in &fixed {
